@@ -426,7 +426,8 @@ func (s *Sim) Drain() {
 			return nil
 		})
 	}
-	for round := 0; round < 12; round++ {
+	idle := 0
+	for round := 0; round < 16; round++ {
 		progress := false
 		for i := 0; i < len(s.Pkts); i++ {
 			p := s.Pkts[i]
@@ -438,6 +439,9 @@ func (s *Sim) Drain() {
 					if s.elapsed(p) {
 						if o := s.Timeout(p); o != nil && o.OK() {
 							progress = true
+						} else if o != nil {
+							p.TimeoutRefused++
+							p.TimeoutRefusedLog = clip(o.Log, 200)
 						}
 						return
 					}
@@ -453,7 +457,16 @@ func (s *Sim) Drain() {
 			})
 		}
 		if !progress {
-			break
+			idle++
+			// a receive refused only because the next block already reaches the timeout needs the clock to move on
+			for _, ch := range s.Ch {
+				ch.Commit()
+			}
+			if idle >= 3 {
+				break
+			}
+		} else {
+			idle = 0
 		}
 	}
 }
@@ -464,6 +477,17 @@ func (s *Sim) EndChecks() {
 	for _, p := range s.Pkts {
 		if p.Terminal == "" {
 			open++
+			s.C.T.Logf("unfinished at end: %v received=%v/%s ackKnown=%v elapsed=%v parent=%v", p, p.Received, p.RecvResult, p.AckV1 != nil || p.AckV2 != nil, s.elapsed(p), p.Parent != nil)
+			for _, l := range s.trace {
+				if strings.Contains(l, p.String()) {
+					s.C.T.Logf("   %s", l)
+				}
+			}
+		}
+		if p.Terminal == "" && !p.Received && p.TimeoutRefused >= 3 && s.elapsed(p) {
+			// the packet did time out (destination past the timeout, never received), honest timeout relays with fresh
+			// proofs were refused again and again: the sender can never be refunded
+			s.viol("C32", "timed-out-transfer-cannot-be-refunded", "packet %v timed out on the destination but %d honest timeout relays were refused: %s", p, p.TimeoutRefused, p.TimeoutRefusedLog)
 		}
 		if p.Refunded > 1 {
 			s.viol("C32", "refunded-twice", "packet %v refunded %d times", p, p.Refunded)
